@@ -49,7 +49,7 @@ impl Pkg {
 }
 
 pub fn count(tier: Tier) -> u64 {
-    tier.pick(160, 2400)
+    tier.pick(160, 6000)
 }
 
 fn rand_src(rng: &mut Rng) -> Src {
